@@ -2,6 +2,7 @@ package subj
 
 import (
 	"errors"
+	"math"
 	"sort"
 	"sync"
 
@@ -52,15 +53,20 @@ func errIdx(e error) int {
 
 type tmErr struct{ m xsync.Map[int, error] }
 
-func (x *tmErr) Load(k int) (int, bool)           { v, ok := x.m.Load(k); return errIdx(v), ok }
-func (x *tmErr) Store(k, v int)                   { x.m.Store(k, tmErrs[v]) }
-func (x *tmErr) LoadOrStore(k, v int) (int, bool) { a, ok := x.m.LoadOrStore(k, tmErrs[v]); return errIdx(a), ok }
-func (x *tmErr) LoadAndDelete(k int) (int, bool)  { v, ok := x.m.LoadAndDelete(k); return errIdx(v), ok }
-func (x *tmErr) Delete(k int)                     { x.m.Delete(k) }
-func (x *tmErr) Swap(k, v int) (int, bool)        { p, ok := x.m.Swap(k, tmErrs[v]); return errIdx(p), ok }
-func (x *tmErr) CompareAndSwap(k, o, n int) bool  { return x.m.CompareAndSwap(k, tmErrs[o], tmErrs[n]) }
-func (x *tmErr) CompareAndDelete(k, o int) bool   { return x.m.CompareAndDelete(k, tmErrs[o]) }
-func (x *tmErr) Range(f func(k, v int) bool)      { x.m.Range(func(k int, v error) bool { return f(k, errIdx(v)) }) }
+func (x *tmErr) Load(k int) (int, bool) { v, ok := x.m.Load(k); return errIdx(v), ok }
+func (x *tmErr) Store(k, v int)         { x.m.Store(k, tmErrs[v]) }
+func (x *tmErr) LoadOrStore(k, v int) (int, bool) {
+	a, ok := x.m.LoadOrStore(k, tmErrs[v])
+	return errIdx(a), ok
+}
+func (x *tmErr) LoadAndDelete(k int) (int, bool) { v, ok := x.m.LoadAndDelete(k); return errIdx(v), ok }
+func (x *tmErr) Delete(k int)                    { x.m.Delete(k) }
+func (x *tmErr) Swap(k, v int) (int, bool)       { p, ok := x.m.Swap(k, tmErrs[v]); return errIdx(p), ok }
+func (x *tmErr) CompareAndSwap(k, o, n int) bool { return x.m.CompareAndSwap(k, tmErrs[o], tmErrs[n]) }
+func (x *tmErr) CompareAndDelete(k, o int) bool  { return x.m.CompareAndDelete(k, tmErrs[o]) }
+func (x *tmErr) Range(f func(k, v int) bool) {
+	x.m.Range(func(k int, v error) bool { return f(k, errIdx(v)) })
+}
 
 func anyOf(v int) any {
 	if v == 0 {
@@ -77,29 +83,135 @@ func anyIdx(a any) int {
 
 type tmAny struct{ m xsync.Map[int, any] }
 
-func (x *tmAny) Load(k int) (int, bool)           { v, ok := x.m.Load(k); return anyIdx(v), ok }
-func (x *tmAny) Store(k, v int)                   { x.m.Store(k, anyOf(v)) }
-func (x *tmAny) LoadOrStore(k, v int) (int, bool) { a, ok := x.m.LoadOrStore(k, anyOf(v)); return anyIdx(a), ok }
-func (x *tmAny) LoadAndDelete(k int) (int, bool)  { v, ok := x.m.LoadAndDelete(k); return anyIdx(v), ok }
-func (x *tmAny) Delete(k int)                     { x.m.Delete(k) }
-func (x *tmAny) Swap(k, v int) (int, bool)        { p, ok := x.m.Swap(k, anyOf(v)); return anyIdx(p), ok }
-func (x *tmAny) CompareAndSwap(k, o, n int) bool  { return x.m.CompareAndSwap(k, anyOf(o), anyOf(n)) }
-func (x *tmAny) CompareAndDelete(k, o int) bool   { return x.m.CompareAndDelete(k, anyOf(o)) }
-func (x *tmAny) Range(f func(k, v int) bool)      { x.m.Range(func(k int, v any) bool { return f(k, anyIdx(v)) }) }
+func (x *tmAny) Load(k int) (int, bool) { v, ok := x.m.Load(k); return anyIdx(v), ok }
+func (x *tmAny) Store(k, v int)         { x.m.Store(k, anyOf(v)) }
+func (x *tmAny) LoadOrStore(k, v int) (int, bool) {
+	a, ok := x.m.LoadOrStore(k, anyOf(v))
+	return anyIdx(a), ok
+}
+func (x *tmAny) LoadAndDelete(k int) (int, bool) { v, ok := x.m.LoadAndDelete(k); return anyIdx(v), ok }
+func (x *tmAny) Delete(k int)                    { x.m.Delete(k) }
+func (x *tmAny) Swap(k, v int) (int, bool)       { p, ok := x.m.Swap(k, anyOf(v)); return anyIdx(p), ok }
+func (x *tmAny) CompareAndSwap(k, o, n int) bool { return x.m.CompareAndSwap(k, anyOf(o), anyOf(n)) }
+func (x *tmAny) CompareAndDelete(k, o int) bool  { return x.m.CompareAndDelete(k, anyOf(o)) }
+func (x *tmAny) Range(f func(k, v int) bool) {
+	x.m.Range(func(k int, v any) bool { return f(k, anyIdx(v)) })
+}
 
 // tmRef: raw sync.Map holding `any` values (nil allowed), absent reported as 0.
 type tmRef struct{ m sync.Map }
 
-func (x *tmRef) Load(k int) (int, bool)           { v, ok := x.m.Load(k); return anyIdx(v), ok }
-func (x *tmRef) Store(k, v int)                   { x.m.Store(k, anyOf(v)) }
-func (x *tmRef) LoadOrStore(k, v int) (int, bool) { a, ok := x.m.LoadOrStore(k, anyOf(v)); return anyIdx(a), ok }
-func (x *tmRef) LoadAndDelete(k int) (int, bool)  { v, ok := x.m.LoadAndDelete(k); return anyIdx(v), ok }
-func (x *tmRef) Delete(k int)                     { x.m.Delete(k) }
-func (x *tmRef) Swap(k, v int) (int, bool)        { p, ok := x.m.Swap(k, anyOf(v)); return anyIdx(p), ok }
-func (x *tmRef) CompareAndSwap(k, o, n int) bool  { return x.m.CompareAndSwap(k, anyOf(o), anyOf(n)) }
-func (x *tmRef) CompareAndDelete(k, o int) bool   { return x.m.CompareAndDelete(k, anyOf(o)) }
+func (x *tmRef) Load(k int) (int, bool) { v, ok := x.m.Load(k); return anyIdx(v), ok }
+func (x *tmRef) Store(k, v int)         { x.m.Store(k, anyOf(v)) }
+func (x *tmRef) LoadOrStore(k, v int) (int, bool) {
+	a, ok := x.m.LoadOrStore(k, anyOf(v))
+	return anyIdx(a), ok
+}
+func (x *tmRef) LoadAndDelete(k int) (int, bool) { v, ok := x.m.LoadAndDelete(k); return anyIdx(v), ok }
+func (x *tmRef) Delete(k int)                    { x.m.Delete(k) }
+func (x *tmRef) Swap(k, v int) (int, bool)       { p, ok := x.m.Swap(k, anyOf(v)); return anyIdx(p), ok }
+func (x *tmRef) CompareAndSwap(k, o, n int) bool { return x.m.CompareAndSwap(k, anyOf(o), anyOf(n)) }
+func (x *tmRef) CompareAndDelete(k, o int) bool  { return x.m.CompareAndDelete(k, anyOf(o)) }
 func (x *tmRef) Range(f func(k, v int) bool) {
 	x.m.Range(func(k, v any) bool { return f(k.(int), anyIdx(v)) })
+}
+
+// "float": V = float64 with the values +0.0 (zero value, spec value 0), 1.5 (1) and -0.0 (2): -0.0 == +0.0 but they are
+// different values (sync.Map stores what it is given and compares with ==)
+func fOf(v int) float64 {
+	switch v {
+	case 1:
+		return 1.5
+	case 2:
+		return math.Copysign(0, -1)
+	}
+	return 0
+}
+func fIdx(f float64) int {
+	switch {
+	case f == 1.5:
+		return 1
+	case f == 0 && math.Signbit(f):
+		return 2
+	case f == 0:
+		return 0
+	}
+	return -99
+}
+
+type tmFloat struct{ m xsync.Map[int, float64] }
+
+func (x *tmFloat) Load(k int) (int, bool) { v, ok := x.m.Load(k); return fIdx(v), ok }
+func (x *tmFloat) Store(k, v int)         { x.m.Store(k, fOf(v)) }
+func (x *tmFloat) LoadOrStore(k, v int) (int, bool) {
+	a, ok := x.m.LoadOrStore(k, fOf(v))
+	return fIdx(a), ok
+}
+func (x *tmFloat) LoadAndDelete(k int) (int, bool) { v, ok := x.m.LoadAndDelete(k); return fIdx(v), ok }
+func (x *tmFloat) Delete(k int)                    { x.m.Delete(k) }
+func (x *tmFloat) Swap(k, v int) (int, bool)       { p, ok := x.m.Swap(k, fOf(v)); return fIdx(p), ok }
+func (x *tmFloat) CompareAndSwap(k, o, n int) bool { return x.m.CompareAndSwap(k, fOf(o), fOf(n)) }
+func (x *tmFloat) CompareAndDelete(k, o int) bool  { return x.m.CompareAndDelete(k, fOf(o)) }
+func (x *tmFloat) Range(f func(k, v int) bool) {
+	x.m.Range(func(k int, v float64) bool { return f(k, fIdx(v)) })
+}
+
+// "anyslice": V = any holding values that are not comparable (slices): nil (0), []int{1} (1), []int{2} (2)
+func sOf(v int) any {
+	if v == 0 {
+		return nil
+	}
+	return []int{v}
+}
+func sIdx(a any) int {
+	if a == nil {
+		return 0
+	}
+	if s, ok := a.([]int); ok && len(s) == 1 {
+		return s[0]
+	}
+	return -99
+}
+
+type tmSlice struct{ m xsync.Map[int, any] }
+
+func (x *tmSlice) Load(k int) (int, bool) { v, ok := x.m.Load(k); return sIdx(v), ok }
+func (x *tmSlice) Store(k, v int)         { x.m.Store(k, sOf(v)) }
+func (x *tmSlice) LoadOrStore(k, v int) (int, bool) {
+	a, ok := x.m.LoadOrStore(k, sOf(v))
+	return sIdx(a), ok
+}
+func (x *tmSlice) LoadAndDelete(k int) (int, bool) { v, ok := x.m.LoadAndDelete(k); return sIdx(v), ok }
+func (x *tmSlice) Delete(k int)                    { x.m.Delete(k) }
+func (x *tmSlice) Swap(k, v int) (int, bool)       { p, ok := x.m.Swap(k, sOf(v)); return sIdx(p), ok }
+func (x *tmSlice) CompareAndSwap(k, o, n int) bool { return x.m.CompareAndSwap(k, sOf(o), sOf(n)) }
+func (x *tmSlice) CompareAndDelete(k, o int) bool  { return x.m.CompareAndDelete(k, sOf(o)) }
+func (x *tmSlice) Range(f func(k, v int) bool) {
+	x.m.Range(func(k int, v any) bool { return f(k, sIdx(v)) })
+}
+
+// tmRefF: raw sync.Map holding float64 values (the reference for the "float" variant)
+type tmRefF struct{ m sync.Map }
+
+func rfIdx(a any) int {
+	if a == nil {
+		return 0
+	}
+	return fIdx(a.(float64))
+}
+func (x *tmRefF) Load(k int) (int, bool) { v, ok := x.m.Load(k); return rfIdx(v), ok }
+func (x *tmRefF) Store(k, v int)         { x.m.Store(k, fOf(v)) }
+func (x *tmRefF) LoadOrStore(k, v int) (int, bool) {
+	a, ok := x.m.LoadOrStore(k, fOf(v))
+	return rfIdx(a), ok
+}
+func (x *tmRefF) LoadAndDelete(k int) (int, bool) { v, ok := x.m.LoadAndDelete(k); return rfIdx(v), ok }
+func (x *tmRefF) Delete(k int)                    { x.m.Delete(k) }
+func (x *tmRefF) Swap(k, v int) (int, bool)       { p, ok := x.m.Swap(k, fOf(v)); return rfIdx(p), ok }
+func (x *tmRefF) CompareAndSwap(k, o, n int) bool { return x.m.CompareAndSwap(k, fOf(o), fOf(n)) }
+func (x *tmRefF) CompareAndDelete(k, o int) bool  { return x.m.CompareAndDelete(k, fOf(o)) }
+func (x *tmRefF) Range(f func(k, v int) bool) {
+	x.m.Range(func(k, v any) bool { return f(k.(int), rfIdx(v)) })
 }
 
 type tmInst struct{ m tmap }
@@ -112,6 +224,12 @@ func (t TypedMap) New() lts.Instance {
 		return &tmInst{&tmAny{}}
 	case "ref":
 		return &tmInst{&tmRef{}}
+	case "float":
+		return &tmInst{&tmFloat{}}
+	case "reffloat":
+		return &tmInst{&tmRefF{}}
+	case "anyslice":
+		return &tmInst{&tmSlice{}}
 	}
 	return &tmInst{&tmInt{}}
 }
